@@ -394,6 +394,13 @@ class World(object):
         self.frame_hooks = []       # f(world, conn, frame)
         self.counters = {"commits": 0, "frames": 0, "steps": 0, "sweeps": 0, "statements": 0}
         self.running = False
+        # work the server defers to "the next reactor turn" (reactor.callLater): collected on a private clock that
+        # follows virtual time.  pump_mode "eager": run at the end of the step that scheduled it (its frames count as
+        # part of that step); "lazy": run at the end of the *next* step, i.e. another command is processed in between
+        self.gclock = None
+        self.pump_mode = "eager"
+        self._older_calls = []
+        self.counters["deferred_calls_run"] = 0
         self._log_obs = None
         self._orig_sqlite = None
         self._orig_random = None
@@ -408,6 +415,36 @@ class World(object):
             self.db_mod.sqlite3 = SHIM
         if getattr(self.server_mod, "random", None) is not self.krandom:
             self.server_mod.random = self.krandom
+        from twisted.internet import reactor, task
+        if self.gclock is None:
+            self.gclock = task.Clock()
+        if not hasattr(reactor, "_verif_real_callLater"):
+            reactor._verif_real_callLater = reactor.callLater
+        reactor.callLater = self._call_later
+
+    def _call_later(self, delay, f, *a, **kw):
+        return self.gclock.callLater(delay, f, *a, **kw)
+
+    def _pump(self):
+        """Run deferred calls that are due (see pump_mode)."""
+        if self.gclock is None:
+            return
+        if self.pump_mode == "eager":
+            for _ in range(1000):
+                due = [c for c in self.gclock.getDelayedCalls() if c.getTime() <= self.gclock.seconds()]
+                if not due:
+                    break
+                self.counters["deferred_calls_run"] += len(due)
+                self.gclock.advance(0)
+        else:
+            older, self._older_calls = self._older_calls, []
+            for c in older:
+                if c.active() and c.getTime() <= self.gclock.seconds():
+                    f, a, kw = c.func, c.args, c.kw
+                    c.cancel()
+                    self.counters["deferred_calls_run"] += 1
+                    f(*a, **kw)
+            self._older_calls = [c for c in self.gclock.getDelayedCalls()]
 
     @property
     def now(self):
@@ -659,6 +696,12 @@ class World(object):
                 self._log_obs = None
             if Hooks.world is self:
                 Hooks.world = None
+            try:
+                from twisted.internet import reactor
+                if getattr(reactor, "callLater", None) == self._call_later:
+                    reactor.callLater = reactor._verif_real_callLater
+            except Exception:
+                pass
 
     # -- steps --------------------------------------------------------------------
     def _begin(self, kind, conn=None, msg=None):
@@ -736,6 +779,7 @@ class World(object):
             self.conns[name] = conn
             p.onConnect(FakeRequest(self.nconn))
             p.onOpen()
+            self._pump()
         except Exception as e:
             st.exc = "%s: %s" % (type(e).__name__, e)
             st.tb = traceback.format_exc()
@@ -762,6 +806,7 @@ class World(object):
             return st
         try:
             conn.p.onMessage(payload, False)
+            self._pump()
         except Exception as e:
             st.exc = "%s: %s" % (type(e).__name__, e)
             st.tb = traceback.format_exc()
@@ -781,6 +826,7 @@ class World(object):
             try:
                 conn.p.state = conn.p.STATE_CLOSED
                 conn.p.onClose(True, 1000, "")
+                self._pump()
             except Exception as e:
                 st.exc = "%s: %s" % (type(e).__name__, e)
                 st.tb = traceback.format_exc()
@@ -827,6 +873,17 @@ class World(object):
             if rest > 0:
                 self.clock.advance(rest)
         self.set_time(target)
+        if self.gclock is not None:
+            if self.gclock.getDelayedCalls():
+                st = self._begin("turn")
+                try:
+                    self.gclock.advance(dt)
+                except Exception as e:
+                    st.exc = "%s: %s" % (type(e).__name__, e)
+                    st.tb = traceback.format_exc()
+                self._end(st)
+            else:
+                self.gclock.advance(dt)
         return fired
 
     def _life_t0(self):
